@@ -36,6 +36,18 @@ namespace mon
    using eol_t = eol_of< MON_EOL >::type;
    using input_t = pegtl::memory_input< ( MON_LAZY ? pegtl::tracking_mode::lazy : pegtl::tracking_mode::eager ), eol_t, std::string >;
 
+   // fields are set by name: a positional initialiser silently shifted when a field was added (C07 ran misconfigured once)
+   inline config base_config( const char* name )
+   {
+      config c{};
+      c.name = name;
+      c.variant = MON_VARIANT;
+      c.lazy = ( MON_LAZY != 0 );
+      c.eolpol = MON_EOL;
+      c.ctrl = MON_CTRL;
+      return c;
+   }
+
    constexpr int kind_of_vid_c( int vid ) { return vid < 0 ? 0 : MON_KINDS[ vid ]; }
    constexpr int kind_of_vid_b( int vid ) { return vid < 0 ? 0 : MON_KINDS_B[ vid ]; }
 
@@ -163,7 +175,7 @@ namespace mon
          default: rs.st = -1; return;
       }
    }
-   inline const config CONFIG = { "buf", MON_VARIANT, false, MON_EOL, 0, false, false, 0, false, true, MON_BUFSET };
+   inline const config CONFIG = [] { config c = base_config( "buf" ); c.lazy = false; c.ctrl = 0; c.buf = true; c.bufset = MON_BUFSET; return c; }();
 #elif defined( MON_TREE )
 }  // namespace mon
 #include <tao/pegtl/contrib/parse_tree.hpp>
@@ -223,7 +235,7 @@ namespace mon
          classify_current_exception( rs );
       }
    }
-   inline const config CONFIG = { "tree", MON_VARIANT, MON_LAZY != 0, MON_EOL, MON_CTRL, false, true, MON_SELV };
+   inline const config CONFIG = [] { config c = base_config( "tree" ); c.tree = true; c.selvariant = MON_SELV; return c; }();
 #elif defined( MON_PLAIN )
    template< typename G >
    void run_entry( const runreq& rq, runres& rs )
@@ -245,7 +257,7 @@ namespace mon
          classify_current_exception( rs );
       }
    }
-   inline const config CONFIG = { "plain", 0, MON_LAZY != 0, MON_EOL, 0, true };
+   inline const config CONFIG = [] { config c = base_config( "plain" ); c.variant = 0; c.ctrl = 0; c.plain = true; return c; }();
 #elif defined( MON_CLIENT )
 }  // namespace mon
 #include <tao/pegtl/contrib/coverage.hpp>
@@ -283,7 +295,7 @@ namespace mon
          for( const auto& [ bn, b ] : e.branches ) on_coverage_counters( name, bn, b.start, b.success, b.failure, b.unwind );
       }
    }
-   inline const config CONFIG = { "client", MON_VARIANT, MON_LAZY != 0, MON_EOL, MON_CTRL, false, false, 0, false, MON_CLIENT };
+   inline const config CONFIG = [] { config c = base_config( "client" ); c.client = MON_CLIENT; return c; }();
 #else
    template< typename G >
    void run_entry( const runreq& rq, runres& rs )
@@ -304,12 +316,12 @@ namespace mon
       }
    }
 #if defined( MON_ANA )
-   inline const config CONFIG = { "ana", MON_VARIANT, MON_LAZY != 0, MON_EOL, MON_CTRL, false, false, 0, true };
+   inline const config CONFIG = [] { config c = base_config( "ana" ); c.ana = true; return c; }();
 #else
 #if defined( MON_TOP_NOTHING )
-   inline const config CONFIG = { "mon-nothing-required", MON_VARIANT, MON_LAZY != 0, MON_EOL, MON_CTRL, false, false, 0, false, 0, false, 0, true };
+   inline const config CONFIG = [] { config c = base_config( "mon-nothing-required" ); c.top_nothing = true; return c; }();
 #else
-   inline const config CONFIG = { "mon", MON_VARIANT, MON_LAZY != 0, MON_EOL, MON_CTRL, false };
+   inline const config CONFIG = base_config( "mon" );
 #endif
 #endif
 #endif
